@@ -1,5 +1,5 @@
 """property id -> check function(prop, tier) -> exit code, plus the metadata bin/mkmanifest writes into MANIFEST.json"""
-import frame, keytree, calltracer, codec, precomp
+import frame, keytree, calltracer, codec, precomp, cancun
 
 FRAME_NOTE = ("Trusted: TLC 1.8; go-ethereum v1.12.0's StateDB as world state; the scenario compiler (harness/scn) that turns model "
               "instructions into byte code; join-point failures are injected at provider level (GetTxBondAspects error) except where real WASM "
@@ -77,6 +77,13 @@ META = {
                       "the fee must be exactly the model's; every call kind x depth x fork checks availability from Berlin on and that a context write is "
                       "attributed to the calling contract or refused, never crashes."),
                 note="Trusted: TLC; the harness host callbacks. One fixed fee per precompile is required (choose-once), not the number 5000."),
+    "C15": dict(fn=cancun.check, engine="cancun", design_ref="3.5, 6 C15", replay=".build/verifh mcopy -one {path}  (or .build/verifh scn -one {path} for transient-storage scenarios)",
+                technique="TLC enumeration of MCopy.tla vectors (memmove invariant model-checked) + TLC exhaustive frame-machine scenarios with TSTORE/TLOAD, all replayed on the real EVM",
+                text=("MCOPY is specified in TLA+ as overlap-safe memmove with expansion to cover source and destination and the EIP-5656 gas formula (MemMove model-checked); "
+                      "every (memory size, dst, src, len) vector in the bound is executed and memory + gas compared. Transient storage is part of the frame machine's world: "
+                      "TransientFresh/TransientLocal/Atomicity are model-checked and every behaviour mixing TSTORE, TLOAD, the four call kinds, reverts and two "
+                      "transactions is replayed under Cancun (and pre-Cancun, where the opcode bytes must be invalid)."),
+                note="Trusted: TLC; the recorder's per-step cost (EVMLogger.CaptureState) for the gas comparison. Exhaustive within offsets <= 24 (44), memory <= 96 bytes, <= 3 frames, <= 4-5 instructions."),
 }
 
 CHECKS = {p: m["fn"] for p, m in META.items()}
